@@ -88,7 +88,7 @@ CLAIMED = {
                   "(line number, most recent label with sys, raw text, parsed signature), len(db) = number of sig lines, also with repeated section headers "
                   "(induction over lines); accepted TCP signatures lie in the documented ranges; layout / quirk / label texts denote what they say "
                   "(printer-parser round trips). " + TIE + GENSIG + GENFILE + " The shipped p0f.fp is one of the cases.",
-             note="Trusted: as C01; Python string primitives (split/partition/strip/int) are modelled for ASCII text and exercised by the correspondence; a full "
+             note="Trusted: as C01; Python string primitives (split/partition/strip/int/encode) are modelled over code points (Unicode 15.0 white-space / digit tables) and exercised by the correspondence; a full "
                   "print/parse round trip of whole TCP/HTTP signature texts is not proved (layout, quirks, labels, numbers are). No axioms.",
              tech="Coq proof (parser = scanner refinement by induction) + extracted-model differential correspondence on generated files", ref="DESIGN.md section 4 C09"),
  "C10": dict(text="Coq theorems: parse_file ends in a database or ParsingError(n) for EVERY line list (no other outcome constructor reachable: the partial "
